@@ -17,7 +17,7 @@ using c19::Bytes;
 // Reports are printed unsymbolised (in-process symbolisation costs ~0.25 s per dying evaluator); the worker resolves
 // the few distinct frame addresses with addr2line and caches them.
 extern "C" const char *__ubsan_default_options() { return "print_stacktrace=1:symbolize=0"; }
-extern "C" const char *__asan_default_options() { return "detect_leaks=0:allocator_may_return_null=1:symbolize=0"; }
+extern "C" const char *__asan_default_options() { return "detect_leaks=0:allocator_may_return_null=1:symbolize=0:quarantine_size_mb=16:malloc_context_size=2"; }
 
 enum
 {
